@@ -4,8 +4,32 @@ contract. rowan's assertion `range.start() <= offset && offset <= range.end()` i
 guard if there is one, the whole `match root.syntax().token_at_offset(x) { .. };`).
 
 Inventory (re-derive: grep -rn 'token_at_offset(\\|covering_element(' crates/emmylua_ls/src/handlers): 20 calls of
-token_at_offset, 0 of covering_element. 16 are slices here (proved), 4 have an argument read back from an index or the
-tree and NO guard in the text: not_covered (with the invariant that would be needed).
+token_at_offset, 0 of covering_element.
+
+  site (file:line at 8b03b52)                               item                                   safe by
+  references/mod.rs:55                                      C25.site.references                    get_offset + link, and guard
+  implementation/mod.rs:46                                  C25.site.implementation                get_offset + link, and guard
+  definition/mod.rs:60                                      C25.site.definition                    get_offset + link, and guard
+  completion/mod.rs:76                                      C25.site.completion                    get_offset + link, and guard
+  call_hierarchy/mod.rs:40                                  C25.site.prepare_call_hierarchy        get_offset + link, and guard
+  rename/mod.rs:57                                          C25.site.prepare_rename                get_offset + link, and guard
+  rename/mod.rs:101                                         C25.site.rename                        get_offset + link, and guard
+  signature_helper/mod.rs:54                                C25.site.signature_help                get_offset + link, and guard
+  document_highlight/mod.rs:35                              C25.site.document_highlight            get_offset + link, and guard
+  hover/mod.rs:56                                           C25.site.hover                         get_offset + link, and guard
+  code_actions/actions/build_disable_code.rs:83             C25.site.disable_next_line             get_offset + link, and guard (>=)
+  inline_values/build_inline_values.rs:14                   C25.site.inline_values                 get_offset + link (no guard)
+  code_actions/actions/build_fix_code.rs:18                 C25.site.need_check_nil                get_offset + link (no guard)
+  document_selection_range/mod.rs:29                        C25.site.selection_range (+ .pair)     get_offset + link (no guard)
+  call_hierarchy/build_call_hierarchy.rs:131                C25.site.incoming_hierarchy_item       get_offset + link (no guard)
+  completion/resolve_completion.rs:70                       C25.site.completion_resolve            guard only (remembered offset)
+  inlay_hint/build_inlay_hint.rs:104                        C25.site.inlay_hint_param_location     guard only (index position; fix 8b03b52)
+  definition/goto_function.rs:161                           not covered (index position, signature-index lookup in front, no range guard)
+  completion/providers/postfix_provider.rs:84               not covered (token of the same tree, no range guard)
+  references/reference_searcher.rs:571                      not covered (reference-index range of the same file, no range guard)
+ client RANGE sites (`params.range` -> LuaDocument::to_rowan_range, contract of c22 after fix 659629c):
+  document_range_formatting/mod.rs:75                       C25.site.range_formatting              `?` on None; selection inside the text
+  document_color/mod.rs:65                                  C25.site.color_presentation            `else { return vec![] }`; get_text_slice in range
 """
 import re
 
@@ -18,10 +42,11 @@ TK = 'crates/emmylua_parser/src/kind/lua_token_kind.rs'
 
 
 @rule('c25-label-call')
-def label_call(text, label=None, **_):
-    """`X.token_at_offset(ARG)` -> `X.token_at_offset(ARG) /*@<label>*/`: a block comment behind the (single-line) call, so
-    that a failed precondition of that call is reported under the site's label. Comments have no run-time meaning."""
-    pat = re.compile(r'\.(?:token_at_offset|covering_element)\((?:[^()\n]|\([^()\n]*\))*\)')
+def label_call(text, label=None, calls='token_at_offset|covering_element', **_):
+    """`X.token_at_offset(ARG)` -> `X.token_at_offset(ARG) /*@<label>*/` (likewise for the other method names given in
+    `calls`): a block comment behind the (single-line) call, so that a failed precondition of that call is reported under
+    the site's label. Comments have no run-time meaning."""
+    pat = re.compile(r'\.(?:%s)\((?:[^()\n]|\([^()\n]*\))*\)' % calls)
     ms = list(pat.finditer(text))
     for m in reversed(ms):
         text = text[:m.end()] + ' /*@%s*/' % label + text[m.end():]
@@ -109,6 +134,38 @@ UNIT = {
             'requires': MODEL_OK,
             'ensures': 'wf(r.0.line_index, r.0.text.spec_bytes()) && doc_of_root(&r.0, r.1) /*@C25.site.selection_range.document-of-root*/',
         },
+        # get_call_signature_param_location: the position stored in a LuaSignatureId of an INFERRED type; the file it names may
+        # have been edited since (fix 8b03b52 added the guard). No client position, no document: the guard alone.
+        'C25.site.inlay_hint_param_location': site('inlay_hint_param_location', 'inlay_hint/build_inlay_hint.rs', 'get_call_signature_param_location',
+             r'if let Some\(root\) = semantic_model\.get_root_by_file_id\(sig_file_id\) \{', 'sig_position',
+             'semantic_model: &SemanticModel, sig_file_id: FileId, sig_position: TextSize',
+             'file_root_at_zero(semantic_model, sig_file_id)',
+             tail='return Some(token);\n}\nNone', indent=12)[1],
+        # ---- client RANGE -> to_rowan_range: nothing in the slice may panic for ANY client range
+        'C25.site.range_formatting': {
+            'src': {'kind': 'slice', 'name': 'site_range_formatting',
+                    'in': {'file': H + 'document_range_formatting/mod.rs', 'kind': 'fn', 'name': 'on_range_formatting_handler'},
+                    'from': r'let selection = document\.to_rowan_range\(request_range\)\?;',
+                    'to': r'let selection = document\.to_rowan_range\(request_range\)\?;',
+                    'head': 'pub fn site_range_formatting(document: LuaDocument, request_range: Range) -> Option<TextRange>',
+                    'tail': 'Some(selection)'},
+            'rules': [('c25-label-call', {'label': 'C25.site.range_formatting', 'calls': 'to_rowan_range|unwrap'})],
+            'ret': 'r',
+            'requires': 'wf(document.line_index, document.text.spec_bytes())',
+            # what reformat_range_in_chunk(document.get_text(), &chunk, selection, ..) is handed: an ordered range inside the text
+            'ensures': 'r matches Some(s) ==> s.wf() && s.end.raw <= document.text.spec_bytes().len() /*@C25.site.range_formatting.selection-in-text*/',
+            'attrs': '#[verifier::spinoff_prover]',
+        },
+        'C25.site.color_presentation': {
+            'src': {'kind': 'slice', 'name': 'site_color_presentation',
+                    'in': {'file': H + 'document_color/mod.rs', 'kind': 'fn', 'name': 'on_document_color_presentation'},
+                    'from': GET_DOC, 'to': r'let text = document\.get_text_slice\(range\);',
+                    'head': 'pub fn site_color_presentation(semantic_model: &SemanticModel, params: ColorPresentationParams) -> Vec<ColorPresentation>',
+                    'tail': 'vec![]'},
+            'rules': [('c25-label-call', {'label': 'C25.site.color_presentation', 'calls': 'to_rowan_range|get_text_slice|unwrap'})],
+            'requires': MODEL_OK,
+            'attrs': '#[verifier::spinoff_prover]',
+        },
         # the site of the seeded defect: the offset is remembered in a completion item (`data.trigger_offset`), the
         # document may have shrunk since -> only the guard in the text makes the call safe. Whole function.
         'C25.site.completion_resolve': {
@@ -143,9 +200,24 @@ UNIT = {
         {'name': 'need-check-nil-offset-plus-len', 'item': 'C25.site.need_check_nil',
          'pattern': r'token_at_offset\(offset\)', 'repl': 'token_at_offset(root.get_range().end() + offset)',
          'expect': r'C25\.site\.need_check_nil:precondition-not-satisfied'},
+        # fix 8b03b52 undone: the stale signature position reaches rowan unchecked
+        {'name': 'inlay-hint-guard-removed', 'item': 'C25.site.inlay_hint_param_location',
+         'pattern': r'if sig_position > root\.syntax\(\)\.text_range\(\)\.end\(\) \{\s*return None;\s*\}', 'repl': '',
+         'expect': r'\[C25\.site\.inlay_hint_param_location\]'},
+        # a client range is not always convertible (missing line, reversed): None must be handled, not unwrapped
+        {'name': 'range-formatting-unwrap', 'item': 'C25.site.range_formatting',
+         'pattern': r'document\.to_rowan_range\(request_range\)\?', 'repl': 'document.to_rowan_range(request_range).unwrap()',
+         'expect': r'\[C25\.site\.range_formatting\]'},
+        {'name': 'color-presentation-unwrap', 'item': 'C25.site.color_presentation',
+         'pattern': r'if let Some\(range\) = document\.to_rowan_range\(params\.range\) \{\s*range\s*\} else \{\s*return vec!\[\];\s*\}',
+         'repl': 'document.to_rowan_range(params.range).unwrap()',
+         'expect': r'\[C25\.site\.color_presentation\]'},
+        {'name': 'color-presentation-slice-swapped', 'item': 'C25.site.color_presentation',
+         'pattern': r'get_text_slice\(range\)', 'repl': 'get_text_slice(TextRange { start: range.end(), end: range.start() })',
+         'expect': r'\[C25\.site\.color_presentation\]'},
     ],
-    'allow': [r'external_body', r'uninterp spec fn (sp_text_range|sp_syntax|sp_root|sp_document|wf)\b'],
-    'min_obligations': 36,
+    'allow': [r'external_body', r'uninterp spec fn (sp_text_range|sp_syntax|sp_root|sp_root_of_file|sp_document|wf)\b'],
+    'min_obligations': 40,
     'trusted': [
         'rowan 0.16.1 shim: SyntaxNode::token_at_offset requires text_range().start() <= offset <= text_range().end() (cursor.rs:887 assert!, '
         'the documented panic), covering_element requires text_range().contains_range(range) (cursor.rs:922 assert!); no postconditions; '
@@ -160,6 +232,11 @@ UNIT = {
         'root.syntax().text_range() == [0, text.len()) (C01 lossless tree + rowan new_root + Vfs replacing text / index / tree together)',
         'opaque accessors: SemanticModel::{get_root, get_document}, LuaChunk::{syntax, get_range = syntax().text_range() (LuaAstNode default '
         'method)}, LuaSyntaxToken::kind, From<LuaTokenKind> for LuaKind and back (no contract; only the arms that choose left / right use them)',
+        'LuaDocument::get_text_slice: external_body, precondition = the panic condition of std `&str[a..b]` (a <= b <= len, both on char boundaries); '
+        'to_rowan_range additionally ensures the is_char_boundary conjunct of offset_ok ([C22.doc.to_rowan_range.clamped], proved in c22)',
+        'SemanticModel::get_root_by_file_id opaque (sp_root_of_file); precondition of the inlay-hint slice file_root_at_zero: the chunk node of a '
+        'file is the root node of its tree, offset 0 (rowan new_root)',
+        'lsp_types::ColorPresentationParams projected to `range`, `color`; Color, ColorPresentation opaque',
         'rule c25-label-call: inserts a block comment behind the call (site label)',
     ],
     'not_covered': [
@@ -168,21 +245,12 @@ UNIT = {
         'get_signature_index().get(&signature_id) to be Some. Needs the index invariant: every key of the signature index of file F is the '
         'position of a closure of F\'s CURRENT tree (update_file_by_uri: remove_index + re-analysis under the write lock). A stale id held '
         'by another file then fails the index lookup before the call',
-        'inlay_hint/build_inlay_hint.rs:99 get_call_signature_param_location: token_at_offset(sig_position), sig_position from the INFERRED '
-        'type LuaType::Signature(id) of the call prefix — NO guard and NO signature-index lookup in front of the call. Needs: every '
-        'LuaSignatureId inside a cached type names a position <= the current text length of its file. SUSPECTED FINDING (not replayed): '
-        'b.lua `local foo = require("a").foo; foo(1, 2)` caches Signature(a.lua, P) as the type of `foo`; didChange a.lua to a text shorter '
-        'than P re-analyses a.lua only (update_file_by_uri); textDocument/inlayHint on b.lua then calls token_at_offset(P) on the new, '
-        'shorter tree of a.lua -> rowan "Bad offset" panic',
         'completion/providers/postfix_provider.rs:84 get_postfix_target: token_at_offset(left_pos.into()), left_pos = '
         'builder.trigger_token.text_range().start() - 1 (behind `trigger_pos > 0`) — no range guard; needs: trigger_token is a token of '
         'builder.semantic_model.get_root() (by construction in completion(): same model, same request, read lock held; no stale value possible)',
         'references/reference_searcher.rs:571 enqueue_value_alias_references: token_at_offset(decl_ref.range.start()) — NO guard; decl_ref is '
         'read from the reference index of decl_id.file_id and semantic_model is the model of that same file: needs the index invariant '
         '"reference ranges of file F are token ranges of F\'s current tree" (rebuilt with the tree under the write lock; no stale value possible)',
-        'LuaDocument::to_rowan_range callers (document_range_formatting/mod.rs:75,160; document_color/mod.rs:65) feed no token_at_offset / '
-        'covering_element call; NOTE its c22 precondition pos_le(start, end): a client range with start after end reaches '
-        'TextRange::new(start, end) -> assert!(start <= end) panics (textDocument/rangeFormatting, textDocument/colorPresentation)',
         'everything after the token is known (the rest of each handler); the async wrappers around the slices',
     ],
     'samples': [
